@@ -10,7 +10,7 @@ import itertools
 
 import numpy as np
 
-from vp import probe, refmodels as rm
+from vp import gen, probe, refmodels as rm
 
 RULE = ('seeded generator: arrays and cubes 1..14 per side (even/odd/non-square), target shapes mixing growing and '
         'shrinking axes, shape parameters (real radii/sizes), integer and real shifts, rotations, hex apertures '
@@ -256,7 +256,7 @@ def workload(ctx, lentil):
         desc = {'op': 'pad', 'in': list(a.shape), 'to': list(t), 'dtype': str(a.dtype)}
         ctx.case(desc, bk, nontrivial=a.size > 1)
         try:
-            out = U.pad(a, t)                      # probe decides the values
+            out = U.pad(gen.layout(rng, a), t)     # probe decides the values (input in any memory layout)
         except Exception:
             continue
         if t[0] >= s[0] and t[1] >= s[1]:
@@ -365,7 +365,7 @@ def workload(ctx, lentil):
             ctx.bucket('rebin:small-int')
         desc = {'op': 'rebin', 'in': list(a.shape), 'factor': f, 'dtype': str(a.dtype)}
         ctx.case(desc, ['rebin'] + (['rebin:cube'] if cube else []), nontrivial=a.size > 1)
-        got = U.rebin(a, f)
+        got = U.rebin(gen.layout(rng, a), f)
         ref = np.zeros(a.shape[:-2] + (s[0] // f, s[1] // f))
         for r in range(s[0] // f):
             for c in range(s[1] // f):
